@@ -243,6 +243,14 @@ Record layer := mkLayer {
 }.
 Definition layer0 : layer := mkLayer [] [] [] 0 0.
 
+(* field updaters: the only places (with [merge_layer]) that rebuild a layer *)
+Definition upd_accts (l : layer) (x : list (N * acct)) : layer :=
+  mkLayer x (l_txids l) (l_leases l) (l_txncount l) (l_fees l).
+Definition upd_fees (l : layer) (x : N) : layer :=
+  mkLayer (l_accts l) (l_txids l) (l_leases l) (l_txncount l) x.
+Definition upd_tx (l : layer) (txids : list (N * N)) (leases : list ((N * N) * N)) (cnt : N) : layer :=
+  mkLayer (l_accts l) txids leases cnt (l_fees l).
+
 (* roundCowBase as far as the evaluator uses it: account table of the previous round, the
    transaction ids the ledger reports as already committed, previous TxnCounter *)
 Record base := mkBase {
@@ -273,8 +281,7 @@ Definition lookup (c : cow) (a : N) : acct := layers_lookup (c_top c :: c_parent
 
 (* roundCowState.putAccount *)
 Definition put (c : cow) (a : N) (x : acct) : cow :=
-  let l := c_top c in
-  set_top c (mkLayer (aupsert a x (l_accts l)) (l_txids l) (l_leases l) (l_txncount l) (l_fees l)).
+  set_top c (upd_accts (c_top c) (aupsert a x (l_accts (c_top c)))).
 
 (* roundCowState.modifiedAccounts *)
 Definition modified (c : cow) : list N := map fst (l_accts (c_top c)).
@@ -304,17 +311,17 @@ Fixpoint merge_leases (into from : list ((N * N) * N)) : list ((N * N) * N) :=
 
 (* roundCowState.commitToParent followed by dropping the child: the parent becomes the
    current cow again *)
+Definition merge_layer (p t : layer) : layer :=
+  mkLayer (merge_accts (l_accts p) (l_accts t))
+          (l_txids p ++ l_txids t)
+          (merge_leases (l_leases p) (l_leases t))
+          ((l_txncount p + l_txncount t) mod 2 ^ 64)
+          (fst (oadd 64 (l_fees p) (l_fees t))).
+
 Definition commit (c : cow) : cow :=
   match c_parents c with
   | [] => c
-  | p :: ps =>
-    let t := c_top c in
-    mkCow (mkLayer (merge_accts (l_accts p) (l_accts t))
-                   (l_txids p ++ l_txids t)
-                   (merge_leases (l_leases p) (l_leases t))
-                   (l_txncount p + l_txncount t)
-                   (fst (oadd 64 (l_fees p) (l_fees t))))
-          ps (c_base c)
+  | p :: ps => mkCow (merge_layer p (c_top c)) ps (c_base c)
   end.
 
 (* ---- checkDup through the layers down to the ledger ---- *)
@@ -349,14 +356,13 @@ Definition checkdup (P : params) (rnd : N) (c : cow) (txid sender lease : N) : o
 (* roundCowState.addTx *)
 Definition addtx (c : cow) (txid lastvalid sender lease : N) : cow :=
   let l := c_top c in
-  set_top c (mkLayer (l_accts l) (l_txids l ++ [(txid, lastvalid)])
-                     (if lease =? 0 then l_leases l else pupsert (sender, lease) lastvalid (l_leases l))
-                     (l_txncount l + 1) (l_fees l)).
+  set_top c (upd_tx l (l_txids l ++ [(txid, lastvalid)])
+                    (if lease =? 0 then l_leases l else pupsert (sender, lease) lastvalid (l_leases l))
+                    ((l_txncount l + 1) mod 2 ^ 64)).
 
 (* cs.feesCollected, _ = OAddA(cs.feesCollected, fee) *)
 Definition addfee (c : cow) (fee : N) : cow :=
-  let l := c_top c in
-  set_top c (mkLayer (l_accts l) (l_txids l) (l_leases l) (l_txncount l) (fst (oadd 64 (l_fees l) fee))).
+  set_top c (upd_fees (c_top c) (fst (oadd 64 (l_fees (c_top c)) fee))).
 
 (* roundCowState.Counter *)
 Definition counter (c : cow) : N :=
